@@ -20,3 +20,135 @@ pub open spec fn tree_hash(t: Tree) -> Seq<u8>
         Tree::Pair(l, r) => sha256(seq![2u8] + tree_hash(*l) + tree_hash(*r)),
     }
 }
+
+/// documented cost of hashing a tree: per atom (len + 1) * cost-per-byte, per pair 460,
+/// over the fully expanded tree (shared sub-trees are charged every time they occur)
+pub open spec fn th_cost(t: Tree, cpb: nat) -> nat
+    decreases t,
+{
+    match t {
+        Tree::Atom(b) => (b.len() + 1) * cpb,
+        Tree::Pair(l, r) => 460 + th_cost(*l, cpb) + th_cost(*r, cpb),
+    }
+}
+
+/// number of nodes of the expanded tree
+pub open spec fn tree_size(t: Tree) -> nat
+    decreases t,
+{
+    match t {
+        Tree::Atom(_) => 1,
+        Tree::Pair(l, r) => 1 + tree_size(*l) + tree_size(*r),
+    }
+}
+
+/// abstract pending operations of the tree-hash machine
+pub enum TOp {
+    SExp(Tree),
+    Cons,
+}
+
+/// the digests the machine ends with, from a state (ops read from the top = last element)
+pub open spec fn th_fin(ops: Seq<TOp>, hs: Seq<Seq<u8>>) -> Seq<Seq<u8>>
+    decreases ops.len(),
+{
+    if ops.len() == 0 {
+        hs
+    } else {
+        let rest = ops.drop_last();
+        match ops.last() {
+            TOp::SExp(t) => th_fin(rest, hs.push(tree_hash(t))),
+            TOp::Cons => {
+                if hs.len() < 2 {
+                    hs
+                } else {
+                    th_fin(rest, hs.drop_last().drop_last().push(sha256(seq![2u8] + hs[hs.len() - 1] + hs[hs.len() - 2])))
+                }
+            },
+        }
+    }
+}
+
+/// cost still to be charged for the pending operations
+pub open spec fn th_pending(ops: Seq<TOp>, cpb: nat) -> nat
+    decreases ops.len(),
+{
+    if ops.len() == 0 {
+        0
+    } else {
+        th_pending(ops.drop_last(), cpb) + (match ops.last() {
+            TOp::SExp(t) => th_cost(t, cpb),
+            TOp::Cons => 0,
+        })
+    }
+}
+
+/// termination measure: 2 per node of a pending tree, 1 per pending Cons
+pub open spec fn th_weight(ops: Seq<TOp>) -> nat
+    decreases ops.len(),
+{
+    if ops.len() == 0 {
+        0
+    } else {
+        th_weight(ops.drop_last()) + (match ops.last() {
+            TOp::SExp(t) => 2 * tree_size(t),
+            TOp::Cons => 1,
+        })
+    }
+}
+
+/// stack discipline: every Cons finds two digests, exactly one digest remains
+pub open spec fn th_disc(ops: Seq<TOp>, nh: int) -> bool
+    decreases ops.len(),
+{
+    if ops.len() == 0 {
+        nh == 1
+    } else {
+        match ops.last() {
+            TOp::SExp(_) => th_disc(ops.drop_last(), nh + 1),
+            TOp::Cons => nh >= 2 && th_disc(ops.drop_last(), nh - 1),
+        }
+    }
+}
+
+pub proof fn lemma_th_push(ops: Seq<TOp>, op: TOp, hs: Seq<Seq<u8>>, cpb: nat)
+    ensures
+        th_fin(ops.push(op), hs) == (match op {
+            TOp::SExp(t) => th_fin(ops, hs.push(tree_hash(t))),
+            TOp::Cons => if hs.len() < 2 { hs } else { th_fin(ops, hs.drop_last().drop_last().push(sha256(seq![2u8] + hs[hs.len() - 1] + hs[hs.len() - 2]))) },
+        }),
+        th_pending(ops.push(op), cpb) == th_pending(ops, cpb) + (match op { TOp::SExp(t) => th_cost(t, cpb), TOp::Cons => 0 }),
+        th_weight(ops.push(op)) == th_weight(ops) + (match op { TOp::SExp(t) => 2 * tree_size(t), TOp::Cons => 1 }),
+        th_disc(ops.push(op), hs.len() as int) == (match op { TOp::SExp(_) => th_disc(ops, hs.len() as int + 1), TOp::Cons => hs.len() >= 2 && th_disc(ops, hs.len() - 1) }),
+{
+    assert(ops.push(op).drop_last() =~= ops);
+    assert(ops.push(op).last() == op);
+}
+
+/// expanding a pending pair into Cons, left, right (right on top) changes nothing observable
+pub proof fn lemma_th_expand(ops: Seq<TOp>, l: Tree, r: Tree, hs: Seq<Seq<u8>>, cpb: nat)
+    ensures
+        ({
+            let t = Tree::Pair(Box::new(l), Box::new(r));
+            let e = ops.push(TOp::Cons).push(TOp::SExp(l)).push(TOp::SExp(r));
+            &&& th_fin(e, hs) == th_fin(ops.push(TOp::SExp(t)), hs)
+            &&& th_pending(e, cpb) + 460 == th_pending(ops.push(TOp::SExp(t)), cpb)
+            &&& th_weight(e) + 1 == th_weight(ops.push(TOp::SExp(t)))
+            &&& th_disc(e, hs.len() as int) == th_disc(ops.push(TOp::SExp(t)), hs.len() as int)
+        }),
+{
+    let t = Tree::Pair(Box::new(l), Box::new(r));
+    let o1 = ops.push(TOp::Cons);
+    let o2 = o1.push(TOp::SExp(l));
+    let h1 = hs.push(tree_hash(r));
+    let h2 = h1.push(tree_hash(l));
+    lemma_th_push(o2, TOp::SExp(r), hs, cpb);
+    lemma_th_push(o1, TOp::SExp(l), h1, cpb);
+    lemma_th_push(ops, TOp::Cons, h2, cpb);
+    lemma_th_push(ops, TOp::SExp(t), hs, cpb);
+    assert(h2.drop_last().drop_last() =~= hs);
+    assert(h2[h2.len() - 1] == tree_hash(l) && h2[h2.len() - 2] == tree_hash(r));
+    // discipline with the right lengths
+    lemma_th_push(o1, TOp::SExp(l), hs.push(seq![0u8]), cpb);
+    lemma_th_push(ops, TOp::Cons, hs.push(seq![0u8]).push(seq![0u8]), cpb);
+}
